@@ -23,4 +23,9 @@ CHECKS = {
                      'cylindrical operators regenerated from operators.py equals the local-frame components of the Cartesian object '
                      '(specification via the inverse Jacobian, itself proved inverse to the derivative of the generated coordinate map); '
                      'the 4 conversion helpers are mutual inverses modulo 2 pi with the documented ranges'),
+    'C11': dict(engine=ENGINE_A, technique=TECH_A, note=NOTE_A + '; coefficient-space variants proved per column (element-wise broadcasting modelled, checked per column by the harness)', ref='DESIGN.md section 7 C11',
+                text='for every network and angular data: shell conditions reproduce f at r_0 and g at r_1 (either orientation), one-sided '
+                     'and infinite variants reproduce f at r_0, and the infinite variants converge to g as r -> infinity (Coquelicot is_lim) '
+                     'for every order k > 0 and bounded network; the same per column for the coefficient-space variants; terms regenerated '
+                     'from conditions.py'),
 }
